@@ -492,6 +492,14 @@ class Kernel:
         t.started = True
         self.tasks.append(t)
         self.current = t
+        # a sleep in the code under test is a timed wait on nothing: the sleeper lets everybody else run
+        # (this process is the private child of one run, so the global patch is harmless)
+        import time as _time
+
+        def sim_sleep(secs):
+            if secs and secs > 0 and self.current is not None and not self.ended:
+                self.timed_block(lambda: False, ("time", "sleep"))
+        _time.sleep = sim_sleep
         self._install_trace()
         try:
             main_fn()
